@@ -315,6 +315,23 @@ func kindName(c carrier) string {
 	return c.kind
 }
 
+// deriveTuple is looked up in goderive's name table by types.AssignableTo: once a tuple with an
+// interface{} component exists in a package, a later request for (T, ...) with any T can be
+// answered with that function (depending on Go's map iteration order) and the package does not
+// compile.  That is the name table's defect (C08/C11: typesMap.nameOf), not a property of the
+// emitted chains, so interface{} (and one of every pair of mutually assignable types) is kept
+// out of the tuple positions here; they still occur as results of compose, join, fmap with one
+// result, traverse and toerror.
+func hasEmptyIface(cs []carrier) bool {
+	for _, c := range cs {
+		// NSl/[]int and NA/[2]int are assignable to each other as well
+		if c.name == "iface" || c.name == "NSl" || c.name == "NA" {
+			return true
+		}
+	}
+	return false
+}
+
 // ---- fmap (error forms) ----
 func (g *gen) fmap(id, arity int) {
 	var a carrier
@@ -322,6 +339,9 @@ func (g *gen) fmap(id, arity int) {
 	if !g.fresh("fmap", func() string {
 		a = g.next()
 		outs = g.nexts(arity)
+		for arity >= 2 && hasEmptyIface(outs) {
+			outs = g.nexts(arity)
+		}
 		return a.typ + ";" + strings.Join(typs(outs), ",")
 	}) {
 		return
@@ -367,6 +387,9 @@ func (g *gen) bind(id int) {
 	var a, c carrier
 	if !g.fresh("join", func() string {
 		a, c = g.next(), g.next()
+		for hasEmptyIface([]carrier{c}) {
+			c = g.next()
+		}
 		return c.typ
 	}) {
 		return
@@ -594,6 +617,15 @@ func Run(cfg hx.Config) (*hx.Meta, error) {
 				g.compose(id, ar)
 				id++
 			}
+		}
+	}
+	if !thorough {
+		// a seeded sample of the 1024 four-stage shapes (thorough has them all)
+		vs := arityVectors(5, 3)
+		hx.Shuffle(g.r, vs)
+		for _, ar := range vs[:48] {
+			g.compose(id, ar)
+			id++
 		}
 	}
 	ncomp := id
